@@ -5,13 +5,13 @@ import openmdao.api as om
 from . import core, gen
 
 
-def build_struct(surface, loads, load_factor=1.0, extra=None, setup_kw=None):
+def build_struct(surface, loads, load_factor=1.0, extra=None, setup_kw=None, loads_units="N"):
     """SpatialBeamAlone fed by constant loads [ny,6]"""
     from openaerostruct.structures.struct_groups import SpatialBeamAlone
     prob = om.Problem(reports=False)
     ny = surface["mesh"].shape[1]
     ivc = om.IndepVarComp()
-    ivc.add_output("loads", val=np.array(loads, dtype=float), units="N")
+    ivc.add_output("loads", val=np.array(loads, dtype=float), units=loads_units)
     ivc.add_output("load_factor", val=load_factor)
     for k, (v, u) in (extra or {}).items():
         ivc.add_output(k, val=v, units=u)
@@ -106,3 +106,22 @@ def run(prob):
 
 def g(prob, name):
     return np.array(prob.get_val(name)).copy()
+
+
+def two_surface_aerostruct(seed=0, exact=(True, False)):
+    """wing + tail with the SAME mesh shape but different structural reference line (fem_origin), material (E, G, yield) and
+    failure aggregation: what a per-surface component built from another surface's dictionary gets wrong without any error"""
+    from . import gen
+    rng = np.random.default_rng(seed)
+    from openaerostruct.geometry.utils import generate_mesh
+    with warnings.catch_warnings():
+        warnings.simplefilter("ignore")
+        mw, _ = generate_mesh({"num_y": 7, "num_x": 2, "wing_type": "CRM", "symmetry": True, "num_twist_cp": 3})
+        mt = generate_mesh({"num_y": 7, "num_x": 2, "wing_type": "rect", "symmetry": True, "span": 20.0, "root_chord": 4.0, "offset": np.array([50.0, 0.0, 2.0])})
+    common = dict(with_viscous=True, with_wave=False, struct_weight_relief=False)
+    wing = gen.tube_surface(mw, symmetry=True, name="wing", fem_origin=0.35, E=70.0e9, G=30.0e9, **{"yield": 2.0e8}, exact_failure_constraint=exact[0],
+                            thickness_cp=np.array([0.05, 0.06, 0.07]), twist_cp=np.array([2.0, 3.0]), t_over_c_cp=np.array([0.12, 0.12]), **common)
+    tail = gen.tube_surface(mt, symmetry=True, name="tail", fem_origin=0.6, E=120.0e9, G=20.0e9, **{"yield": 1.2e8}, exact_failure_constraint=exact[1],
+                            thickness_cp=np.array([0.02, 0.02]), twist_cp=np.array([0.0, 0.0]), t_over_c_cp=np.array([0.1]), **common)
+    p = build_aerostruct([wing, tail], Mach=0.7, alpha=3.0)
+    return run(p), [wing, tail]
